@@ -469,15 +469,15 @@ def energy_rule(ctx):
 def run(ctx):
     from ..shared import zero_argument_division_rule as _zero_argument_division_rule
 
-    _zero_argument_division_rule(ctx, "R16.12", scope=lambda f: f.module.name.startswith(("EasyFEA.Models.InElastic", "EasyFEA.Simulations._inelastic")))
+    ctx.attempt(_zero_argument_division_rule, ctx, "R16.12", scope=lambda f: f.module.name.startswith(("EasyFEA.Models.InElastic", "EasyFEA.Simulations._inelastic")))
     from ..shared import group_loop_rule as _group_loop_rule
     from . import c14 as _c14
 
     # 'the reported deformation energy equals one half of u'Ku' for the state the simulation holds: the memoised
     # stiffness of a staggered simulation is invalidated whenever the other field is replaced
-    _c14.staggered_flags_rule(ctx, ctx.repo.cls("EasyFEA.Simulations._simu._Simu"))
+    ctx.attempt(_c14.staggered_flags_rule, ctx, ctx.repo.cls("EasyFEA.Simulations._simu._Simu"))
 
-    _group_loop_rule(ctx, "R16.11", scope=lambda f, _s=("EasyFEA.Simulations", "EasyFEA.Models._utils", "EasyFEA.FEM._mesh"): f.module.name.startswith(_s), min_instances=10)
+    ctx.attempt(_group_loop_rule, ctx, "R16.11", scope=lambda f, _s=("EasyFEA.Simulations", "EasyFEA.Models._utils", "EasyFEA.FEM._mesh"): f.module.name.startswith(_s), min_instances=10)
     ctx.level = "other"
     ctx.explanation = (
         "Every Result() dispatcher is interpreted on a labelled two-node simulation stub for each dimension / dof configuration: the names folded out of "
@@ -491,7 +491,7 @@ def run(ctx):
     reaction_rule(ctx)
     node_values_rule(ctx)
     node_to_element_rule(ctx)
-    storage_location_rule(ctx)
+    ctx.attempt(storage_location_rule, ctx)
     energy_rule(ctx)
 
 
